@@ -1,11 +1,15 @@
 """unit rnd: run_acb_app_to_render_model of app/approot.rs (visits the securities in sorted order, concatenates their deltas,
-hands them to the gains / total-costs computations) on top of bk + agg + costs; rendering itself is assumed"""
+hands them to the gains / total-costs computations) together with run_acb_app_to_delta_models (unit drv), whose contract it
+uses, on top of bk + fx + ord + agg + costs; rendering itself is assumed"""
+import os
 from vx.build import Src, mod, shim
 import units.bk as bk
 import units.costs as costsu
+import units.fx as fxu
+import units.drv as drvu
 
 NAME = 'rnd'
-OVERLAYS = ['bk', 'agg', 'costs', 'rnd']
+OVERLAYS = ['bk', 'fx', 'ord', 'drv', 'agg', 'costs', 'rnd']
 VERUS_FLAGS = ['--no-lifetime']
 VERIFY_MODULES = ['app::approot']
 
@@ -29,42 +33,41 @@ def build(ctx):
     rd.sub(r'(?ms)^use [^;]*;\n', '', 'select')
     for f in ('render_tx_table_model', 'render_aggregate_capital_gains', 'render_total_costs'):
         rd.ext_fn(f, why='string rendering')
-    ar = Src(ctx, 'app/approot.rs').cut_tests().standard()
-    ar.sub(r'\basync fn\b', 'fn', 'R10')
-    ar.sub(r'\.await\b', '', 'R10')
-    ar.only(['type Error', 'fn run_acb_app_to_delta_models', 'struct AllCumulativeCapitalGains', 'fn get_cumulative_capital_gains',
-             'struct AppRenderResult', 'fn run_acb_app_to_render_model'])
-    ar.sub(r'(?ms)^use [^;]*;\n', '', 'select')
-    ar.ext_fn('run_acb_app_to_delta_models', why='verified in unit drv; its result is left arbitrary here')
+    f = fxu.fx_parts(ctx)
+    import units.ord as ordu
+    o = ordu.ord_parts(ctx)
+    ar = drvu.approot_src(ctx, ['type Error', 'fn run_acb_app_to_delta_models', 'struct AllCumulativeCapitalGains', 'fn get_cumulative_capital_gains',
+                                'struct AppRenderResult', 'fn run_acb_app_to_render_model'])
     ar.ext_fn('get_cumulative_capital_gains', why='verified in unit agg; its result is left arbitrary here')
     ar.replace("\nstruct AllCumulativeCapitalGains", "\npub struct AllCumulativeCapitalGains", 'R14')
     ar.replace("\nfn get_cumulative_capital_gains", "\npub fn get_cumulative_capital_gains", 'R14')
     ar.replace("deltas_results_by_sec.into_iter().collect();", "hole_map_into_vec(deltas_results_by_sec);", 'H')
     ar.replace("let mut deltas_copy = deltas.iter().cloned().collect();", "let mut deltas_copy = hole_clone_deltas(deltas);", 'H')
-    app_use = ("use std::collections::HashMap;\nuse vstd::std_specs::iter::IteratorSpec;\nuse crate::stdx::*;\nuse crate::portfolio::*;\nuse crate::portfolio::bookkeeping::*;\n"
-               "use crate::portfolio::render::{render_aggregate_capital_gains, render_tx_table_model, CostsTables, RenderTable};\n"
-               "use crate::util::rw::WriteHandle;\nuse crate::util::rw_reader::DescribedReader;\n"
-               "use crate::app::stubs::{RateLoader, TxCsvParseOptions};\n")
-    stubs_mod = mod('stubs', "/// opaque stand-ins for types only passed through to run_acb_app_to_delta_models\n"
-                             "#[verifier::external_body]\npub struct RateLoader { x: u8 }\n#[verifier::external_body]\npub struct TxCsvParseOptions { x: u8 }\n")
-    app = mod('app', stubs_mod + mod('approot', app_use + ar.text()))
-    import os
+    app_use = (drvu.APP_USE + "use crate::stdx::*;\nuse crate::portfolio::*;\nuse crate::portfolio::bookkeeping::*;\n"
+               "use crate::portfolio::render::{render_aggregate_capital_gains, render_tx_table_model, CostsTables, RenderTable};\n")
+    app = mod('app', mod('approot', app_use + ar.text()))
     ustubs = open(os.path.join(os.path.dirname(os.path.dirname(os.path.abspath(__file__))), 'shim', 'util_stubs.rs')).read()
     render_use = "use crate::portfolio::{CumulativeCapitalGains, TxDelta};\nuse crate::portfolio::bookkeeping::Costs;\n"
-    return (shim('base', 'std') + "verus! {\n"
+    head = shim('base', 'std').replace('verus! {\n/// Trusted contracts for std', fxu.MACROS + 'verus! {\n/// Trusted contracts for std', 1)
+    return (head + "verus! {\n"
             + bk.assemble(p, extra_util=ustubs, extra_bookkeeping=mod('costs', c.text()) + "pub use self::costs::*;\n",
-                          extra_portfolio=mod('cumulative_gains', cg.text(), '') + "pub use self::cumulative_gains::*;\n"
+                          extra_portfolio=mod('io', mod('tx_loader', f['txl']) + drvu.tx_csv_part(ctx)) + o['mods']
+                          + mod('cumulative_gains', cg.text(), '') + "pub use self::cumulative_gains::*;\n"
                           + mod('render', render_use + rd.text()),
-                          extra_top=app)
+                          extra_top=f['fx'] + app)
             + "} // verus!\nfn main() {}\n")
 
 
 def OVERLAY_SPLIT(op):
+    if 'mod tx_csv' in op['path'] or 'fn run_acb_app_to_delta_models' in op['path'] or op.get('before_item') == 'fn run_acb_app_to_delta_models':
+        return 'drv'
     if 'mod app' in op['path'] or 'mod render' in op['path']:
         return 'rnd'
     if 'mod cumulative_gains' in op['path']:
         return 'agg'
-    return 'costs' if 'mod costs' in op['path'] else 'bk'
+    if 'mod costs' in op['path']:
+        return 'costs'
+    return drvu.OVERLAY_SPLIT(op)
 
 
 TAG_RULES = [
